@@ -681,3 +681,40 @@ def gen_capture(r, nest=True):
     src = "\n".join(lines) + "\n"
     expect = "\n".join(exp_m1 + exp_a + (exp_b if inner else []) + exp_m2) + "\n"
     return {"src": src, "expect": expect, "kinds": kinds_used, "nmut": nmut[0], "inner": inner, "closure": use_closure}
+
+
+# ------------------------------------------------------------------------------------------
+# race networks (C10): pure producers writing to ONE shared channel
+
+def gen_race_network(r):
+    """2-3 producer tasks that never read anything write tagged messages to one shared channel with
+    different amounts of work in between; main prints the messages in arrival order. The producers
+    advance in lock step (one instruction each per round, whatever main is doing), so the arrival
+    order - and with it the printed text - must not depend on how the embedder slices execution."""
+    np_ = r.range(2, 3)
+    kind = r.choice([k for k in KINDS if k.name in ("int", "string", "array", "struct", "tuple")])
+    lines = [DECLS, "let shared: channel<%s> = channel()" % kind.ty]
+    total = 0
+    for p in range(np_):
+        m = r.range(2, 5)
+        total += m
+        lines.append("task {")
+        for j in range(m):
+            w = r.choice([0, 1, 2, 3, 5, 8, 13, 21])
+            if w:
+                lines.append("  var sp%d_%d = 0" % (p, j))
+                lines.append("  while sp%d_%d < %d { sp%d_%d += 1 }" % (p, j, w, p, j))
+            src, _pv = kind.mk(p + 1, j)
+            if r.chance(40):
+                lines.append('  let pad%d_%d = "pad" .. %d' % (p, j, j))
+            lines.append("  shared.write(%s)" % src)
+        lines.append("}")
+    if r.chance(50):
+        lines.append('println("main starts")')
+    for k in range(total):
+        lines.append("println(%s)" % kind.show("shared.read()"))
+        if r.chance(30):
+            lines.append("var ms%d = 0" % k)
+            lines.append("while ms%d < %d { ms%d += 1 }" % (k, r.choice([1, 4, 9]), k))
+    lines.append('println("end")')
+    return {"src": "\n".join(lines) + "\n", "producers": np_, "messages": total}
